@@ -213,6 +213,9 @@ func tryReplay(w *World, pr *propRun, o *Oblig, rp map[string]any) bool {
 		if replayable(in.typ) == "string" {
 			fmt.Fprintf(&bound, "(assert (<= (s_len %s) 64))\n", in.term)
 		}
+		if replayable(in.typ) == "bytes" {
+			fmt.Fprintf(&bound, "(assert (<= (l_len %s) 64))\n", in.term)
+		}
 	}
 	small := strings.Replace(query, "(check-sat)\n", bound.String()+"(check-sat)\n", 1)
 	vals, errs := getValues(small, solver, terms)
@@ -265,8 +268,23 @@ func tryReplay(w *World, pr *propRun, o *Oblig, rp map[string]any) bool {
 				terms = append(terms, sx("select", sx("s_arr", in.term), sx("+", sx("s_off", in.term), fmt.Sprint(k))))
 			}
 		case "bytes":
-			rp["replay"] = "not attempted: byte-slice contents live in the heap model"
-			return false
+			// the bytes of a []byte parameter live in the element heap as it was at function entry
+			hn := elemHeapName(types.Typ[types.Uint8])
+			h, ok := e.entry.heaps[hn]
+			if !ok {
+				h = hn + "!e0"
+				if !e.declared[h] {
+					// the function never looks at the contents: any bytes will do
+					h = ""
+				}
+			}
+			for k := int64(0); k < n; k++ {
+				if h == "" {
+					terms = append(terms, "0")
+				} else {
+					terms = append(terms, sx("select", sx("select", h, sx("l_ref", in.term)), sx("+", sx("l_off", in.term), fmt.Sprint(k))))
+				}
+			}
 		}
 	}
 	// phase 2 must see the same model: pin the scalars and lengths found in phase 1
@@ -275,6 +293,8 @@ func tryReplay(w *World, pr *propRun, o *Oblig, rp map[string]any) bool {
 		switch replayable(in.typ) {
 		case "string":
 			fmt.Fprintf(&pin, "(assert (= (s_len %s) %d))\n", in.term, lens[in])
+		case "bytes":
+			fmt.Fprintf(&pin, "(assert (= (l_len %s) %d))\n", in.term, lens[in])
 		}
 	}
 	for i, t := range pinTerms {
@@ -288,7 +308,7 @@ func tryReplay(w *World, pr *propRun, o *Oblig, rp map[string]any) bool {
 	}
 	vi := 0
 	for _, in := range ins {
-		if replayable(in.typ) != "string" {
+		if k := replayable(in.typ); k != "string" && k != "bytes" {
 			continue
 		}
 		var bs []string
@@ -301,6 +321,9 @@ func tryReplay(w *World, pr *propRun, o *Oblig, rp map[string]any) bool {
 			bs = append(bs, fmt.Sprint(uint8(n)))
 		}
 		in.lit = fmt.Sprintf("%s([]byte{%s})", types.TypeString(in.typ, qual), strings.Join(bs, ", "))
+		if replayable(in.typ) == "bytes" {
+			in.lit = fmt.Sprintf("[]byte{%s}", strings.Join(bs, ", "))
+		}
 	}
 	// the test
 	var args, show []string
